@@ -169,6 +169,16 @@ def run(c: Check):
                     "two submissions of a task that differ by their init tasks are two jobs, but what embeds their outputs gets "
                     "one identifier (the task mark is hashed through the raw identifier of the task)",
                     dict(pair=[], kind="init-tasks-of-producing-task", probe="harness/drive_c03probe.py", got=pr))
+    # directed probe outside the modelled domain: configuration-valued defaults (compared through TypeConfig.__eq__,
+    # which does not look at the task mark)
+    pr2 = run_impl("drive_cfgdefault.py", {}, timeout=300)
+    c.count("probe:config-valued-default")
+    if len({pr2["c02_default"], pr2["c03_output_of_e1"], pr2["c03_output_of_e2"]}) < 3:
+        c.violation("C03:collision:config-valued-default-ignores-task-mark",
+                    "Holder.sub: Param[A] = A(x=1); Holder(), Holder(sub=<output A(x=1) of Prod(e=1)>) and "
+                    "Holder(sub=<output A(x=1) of Prod(e=2)>) share an identifier: the output equals the default for "
+                    "TypeConfig.__eq__ (which ignores the task mark) and is elided with the task that produced it",
+                    dict(pair=[], kind="config-valued-default", probe="harness/drive_cfgdefault.py", got=pr2))
     c.level_assumptions = [
         "SHA-256 is a parameter H of every theorem; conclusions are 'the hashed streams differ' (so identifiers differ unless H collides)",
         "the claimed domain: strings, enum and type names without bytes < 0x20; dict types nested at most two levels; ints in the !q range",
